@@ -110,4 +110,3 @@ func cmdVerify(args []string) {
 		fmt.Println("SPEC ERROR:", m)
 	}
 }
-
